@@ -34,6 +34,11 @@ func vh_C12_seq() {
 	h := loader.loadSession(http.HandlerFunc(func(http.ResponseWriter, *http.Request) { nextCalls++ }))
 	h.ServeHTTP(rw, req)
 
+	if lock.obtainCalls > 0 {
+		// a refresh lock that expires within one retry period of the waiting requests cannot
+		// keep them out while the provider is being asked: it must outlive the retry period
+		verifAssert("C12.lock-outlives-the-retry-period", lock.expiration > sessionRefreshRetryPeriod)
+	}
 	verifAssert("C12.next-called-once", nextCalls == 1)
 	got := scope.Session
 	first := st.loadKind[0]
